@@ -1,6 +1,7 @@
 (* C02_lin.v -- every run of the concurrent cache machine, under every schedule
    and every choice of what Range snapshots return, is linearizable with respect
-   to SpecTTL. *)
+   to SpecTTL; along the way every thread's callbacks match the entries its own
+   map steps removed (C06) and its user-function invocations are as C05 says. *)
 From CacheV Require Import Base SpecMap Client CacheModel Ops SpecTTL Lin Conc.
 From CacheV.gen Require Import Params.
 From CacheV.proofs Require Import C01_sim C01_ops C02_good C02_methods.
@@ -22,23 +23,89 @@ Section LinProof.
   Notation cconf := (@cconf K V).
   Notation cstep := (cstep eqd progs NOW DFLT CB).
   Notation crun := (crun eqd progs NOW DFLT CB).
+  Notation label := (@label K V).
 
   (* the sequential specification as a transition relation *)
   Definition tspec (s : cstate K V) (o : cop) (r : cres) (s' : cstate K V) : Prop :=
     spec_ok eqd zero s o r /\ s' = spec_next eqd zero s o.
 
-  Definition thr_ok (ts : tstate) (st : tstat cop cres) : Prop :=
+  (* ---------------- the per-thread monitor of C06 / C05 ---------------- *)
+
+  (* what a thread is in the middle of, what it still owes its callback, how
+     often it has invoked the user function in the current call *)
+  Record mon := { m_op : option cop; m_owe : list (K * V); m_nfn : nat }.
+  Definition mon_idle : mon := {| m_op := None; m_owe := []; m_nfn := 0 |}.
+
+  Definition veq_kv (a b : K * V) : Prop := a = b.
+
+  (* None = the trace violates C06 / C05 at this label *)
+  Definition mon_step (t : nat) (m : option mon) (l : label) : option mon -> Prop :=
+    fun m' =>
+    match m with
+    | None => m' = None
+    | Some m =>
+      match l with
+      | LInv t' o => if Nat.eq_dec t' t then m' = Some {| m_op := Some o; m_owe := []; m_nfn := 0 |} else m' = Some m
+      | LGone t' k v =>
+          if Nat.eq_dec t' t then
+            match m_op m with
+            | Some o => m' = Some {| m_op := Some o; m_owe := (if is_remover o && has_cb CB then m_owe m ++ [(k, v)] else m_owe m);
+                                     m_nfn := m_nfn m |}
+            | None => m' = None
+            end
+          else m' = Some m
+      | LEv t' (EFire c k v) =>
+          if Nat.eq_dec t' t then
+            (* a callback: the one in force, for the oldest entry this call removed and has not reported yet *)
+            (exists rest, CB = Some c /\ m_owe m = (k, v) :: rest
+                          /\ m' = Some {| m_op := m_op m; m_owe := rest; m_nfn := m_nfn m |})
+            \/ ((forall rest, ~ (CB = Some c /\ m_owe m = (k, v) :: rest)) /\ m' = None)
+          else m' = Some m
+      | LEv t' (EFn _) =>
+          if Nat.eq_dec t' t then m' = Some {| m_op := m_op m; m_owe := m_owe m; m_nfn := S (m_nfn m) |} else m' = Some m
+      | LEv _ (EVisit _ _) => m' = Some m
+      | LRes t' r =>
+          if Nat.eq_dec t' t then
+            match m_op m with
+            | Some o => (m_owe m = [] /\ fn_ok o r (m_nfn m) /\ m' = Some mon_idle)
+                        \/ (~ (m_owe m = [] /\ fn_ok o r (m_nfn m)) /\ m' = None)
+            | None => m' = None
+            end
+          else m' = Some m
+      | LTau _ => m' = Some m
+      end
+    end.
+
+  Inductive mon_run (t : nat) : option mon -> list label -> option mon -> Prop :=
+  | mr_nil m : mon_run t m [] m
+  | mr_cons m l m1 ls m2 : mon_step t m l m1 -> mon_run t m1 ls m2 -> mon_run t m (l :: ls) m2.
+
+  (* the trace never violates: whatever the monitor can reach is a Some *)
+  Definition mon_accepts (t : nat) (m : mon) (ls : list label) : Prop :=
+    forall m', mon_run t (Some m) ls m' -> m' <> None.
+
+  (* ---------------- the invariant ---------------- *)
+
+  Definition gh_t := (list (K * V) * nat)%type.
+
+  Definition thr_ok (ts : tstate) (st : tstat cop cres) (g : gh_t) : Prop :=
     match ts with
     | Idle => st = TIdle
     | Running o p =>
-        conc_ok o /\ exists owe nfn,
-          (st = TInvoked o /\ good o None owe nfn p)
-          \/ (exists r, st = TLinearized o r /\ good o (Some r) owe nfn p)
+        conc_ok o /\
+        ((st = TInvoked o /\ good o None (fst g) (snd g) p)
+         \/ (exists r, st = TLinearized o r /\ good o (Some r) (fst g) (snd g) p))
     end.
 
-  Record Inv (s : cconf) (ist : nat -> tstat cop cres) (L : amap K item) : Prop := {
+  Definition mon_of (ts : tstate) (g : gh_t) : mon :=
+    match ts with
+    | Idle => mon_idle
+    | Running o _ => {| m_op := Some o; m_owe := fst g; m_nfn := snd g |}
+    end.
+
+  Record Inv (s : cconf) (ist : nat -> tstat cop cres) (L : amap K item) (gh : nat -> gh_t) : Prop := {
     inv_R : Rm (c_map s) L;
-    inv_thr : forall t, thr_ok (c_thr s t) (ist t);
+    inv_thr : forall t, thr_ok (c_thr s t) (ist t) (gh t);
     inv_todo : forall t, Forall conc_ok (c_todo s t);
   }.
 
@@ -47,177 +114,343 @@ Section LinProof.
   Lemma upd_other {X} (f : nat -> X) t x t' : t' <> t -> upd f t x t' = f t'.
   Proof. unfold upd. destruct (Nat.eq_dec t' t); congruence. Qed.
 
-  (* changing one thread (and possibly the shared state, keeping Rm) *)
-  Lemma Inv_set s ist L t m' ts st L' todo' :
-    Inv s ist L -> Rm m' L' -> thr_ok ts st ->
+  Lemma Inv_set s ist L gh t m' ts st g L' todo' :
+    Inv s ist L gh -> Rm m' L' -> thr_ok ts st g ->
     (forall t', Forall conc_ok (todo' t')) ->
-    Inv {| c_map := m'; c_thr := upd (c_thr s) t ts; c_todo := todo' |} (upd ist t st) L'.
+    Inv {| c_map := m'; c_thr := upd (c_thr s) t ts; c_todo := todo' |} (upd ist t st) L' (upd gh t g).
   Proof.
     intros HI HR Ht Htodo. constructor; cbn.
     - exact HR.
-    - intros t'. unfold upd. destruct (Nat.eq_dec t' t); [exact Ht | apply (inv_thr _ _ _ HI)].
+    - intros t'. unfold upd. destruct (Nat.eq_dec t' t); [exact Ht | apply (inv_thr _ _ _ _ HI)].
     - exact Htodo.
   Qed.
 
-  Lemma Inv_set_same s ist L t m' ts L' :
-    Inv s ist L -> Rm m' L' -> thr_ok ts (ist t) ->
-    Inv {| c_map := m'; c_thr := upd (c_thr s) t ts; c_todo := c_todo s |} ist L'.
-  Proof.
-    intros HI HR Ht. constructor; cbn.
-    - exact HR.
-    - intros t'. unfold upd. destruct (Nat.eq_dec t' t) as [->|]; [exact Ht | apply (inv_thr _ _ _ HI)].
-    - apply (inv_todo _ _ _ HI).
-  Qed.
-
-  Lemma history_app (a b : list (@label K V)) : history (a ++ b) = history a ++ history b.
+  Lemma history_app (a b : list label) : history (a ++ b) = history a ++ history b.
   Proof. induction a as [|[] a IH]; cbn; auto; f_equal; auto. Qed.
 
-  (* a step that is neither invocation, response nor linearization point *)
-  Lemma silent_step sched (IH : forall s ist L, Inv s ist L ->
-            let '(s', ls) := crun s sched in
-            exists i, erase _ _ i = history ls /\ wf_inst _ _ ist i /\ legal _ _ _ tspec (mk L) i)
-        s ist L t o p' ls' :
-    Inv s ist L -> history ls' = [] -> thr_ok (Running o p') (ist t) ->
-    let '(s', ls) := crun (set_thr s t (Running o p')) sched in
-    exists i, erase _ _ i = history (ls' ++ ls) /\ wf_inst _ _ ist i /\ legal _ _ _ tspec (mk L) i.
+  (* labels of thread t do not move another thread's monitor *)
+  Definition labels_of (t : nat) (ls : list label) : Prop :=
+    Forall (fun l => match l with
+                     | LInv t' _ | LRes t' _ | LEv t' _ | LGone t' _ _ | LTau t' => t' = t
+                     end) ls.
+
+  Lemma mon_other t t' m ls m' : t' <> t -> labels_of t ls -> mon_run t' (Some m) ls m' -> m' = Some m.
   Proof.
-    intros HI Hh Ht.
-    assert (HI1 : Inv (set_thr s t (Running o p')) ist L).
-    { unfold set_thr. apply (Inv_set_same s ist L t (c_map s) (Running o p') L HI (inv_R _ _ _ HI) Ht). }
-    specialize (IH _ _ _ HI1). destruct (crun _ sched) as [s2 ls2]. destruct IH as [i [He [Hw Hl]]].
-    exists i. rewrite history_app, Hh. cbn. auto.
+    intros Hne Hl. revert m'. induction ls as [|l ls IH]; intros m' Hr; inversion Hr; subst; auto.
+    inversion Hl as [|? ? Hl1 Hl2]; subst.
+    assert (m1 = Some m).
+    { destruct l as [t0 o|t0 r|t0 e|t0 k v|t0]; subst t0; cbn in H2.
+      - destruct (Nat.eq_dec t t'); [congruence|auto].
+      - destruct (Nat.eq_dec t t'); [congruence|auto].
+      - destruct e; try (destruct (Nat.eq_dec t t'); [congruence|auto]); auto.
+      - destruct (Nat.eq_dec t t'); [congruence|auto].
+      - auto. }
+    subst m1. apply IH; auto.
   Qed.
 
-  Theorem runs_linearizable sched : forall s ist L,
-    Inv s ist L ->
+  Definition step_labels (t : nat) (evs : list (event K V)) (g : list (K * V)) : list label :=
+    map (LEv t) evs ++ map (fun kv => LGone t (fst kv) (snd kv)) g ++ [LTau t].
+
+  Lemma step_labels_history t evs g : history (step_labels t evs g) = [].
+  Proof. unfold step_labels. induction evs; cbn; auto. induction g; cbn; auto. Qed.
+
+  Lemma step_labels_of t evs g : labels_of t (step_labels t evs g).
+  Proof.
+    unfold step_labels, labels_of. apply Forall_app. split.
+    - apply Forall_forall. intros x Hx. apply in_map_iff in Hx. destruct Hx as [? [<- _]]. reflexivity.
+    - apply Forall_app. split; [|repeat constructor].
+      apply Forall_forall. intros x Hx. apply in_map_iff in Hx. destruct Hx as [? [<- _]]. reflexivity.
+  Qed.
+
+  Lemma mon_run_single t m l m' : mon_run t m [l] m' -> mon_step t m l m'.
+  Proof.
+    intros H. inversion H as [|? ? mx ? ? Hs Hr]; subst. inversion Hr; subst. exact Hs.
+  Qed.
+
+  Lemma mon_run_app t m a b m' : mon_run t m (a ++ b) m' -> exists mx, mon_run t m a mx /\ mon_run t mx b m'.
+  Proof.
+    revert m. induction a as [|l a IH]; intros m H; cbn in H.
+    - exists m. split; [constructor | exact H].
+    - inversion H as [|? ? m1 ? ? Hs Hr]; subst. destruct (IH _ Hr) as [mx [H1 H2]].
+      exists mx. split; [econstructor; eauto | exact H2].
+  Qed.
+
+  Lemma mon_fns t o owe nfn k n mm :
+    mon_run t (Some {| m_op := Some o; m_owe := owe; m_nfn := nfn |}) (map (LEv t) (repeat (EFn k) n)) mm ->
+    mm = Some {| m_op := Some o; m_owe := owe; m_nfn := (nfn + n)%nat |}.
+  Proof.
+    revert nfn. induction n as [|n IH]; intros nfn Hr; cbn in Hr.
+    - inversion Hr; subst. rewrite Nat.add_0_r. reflexivity.
+    - inversion Hr as [|? ? m1 ? ? Hs Hr']; subst. cbn in Hs. destruct (Nat.eq_dec t t); [|congruence]. subst m1.
+      cbn in Hr'. rewrite (IH _ Hr'). f_equal. f_equal. lia.
+  Qed.
+
+  Lemma mon_gones t o owe nfn (g : list (K * V)) mm :
+    mon_run t (Some {| m_op := Some o; m_owe := owe; m_nfn := nfn |})
+            (map (fun kv => LGone t (fst kv) (snd kv)) g) mm ->
+    mm = Some {| m_op := Some o; m_owe := (if is_remover o && has_cb CB then owe ++ g else owe); m_nfn := nfn |}.
+  Proof.
+    revert owe. induction g as [|[k v] g IH]; intros owe Hr; cbn in Hr.
+    - inversion Hr; subst. destruct (is_remover o && has_cb CB); rewrite ?app_nil_r; reflexivity.
+    - inversion Hr as [|? ? m1 ? ? Hs Hr']; subst. cbn in Hs. destruct (Nat.eq_dec t t); [|congruence]. subst m1.
+      cbn [m_op m_owe m_nfn] in Hr'. rewrite (IH _ Hr').
+      destruct (is_remover o && has_cb CB); [rewrite <- app_assoc|]; reflexivity.
+  Qed.
+
+  Lemma fn_events_shape (mo : cmop K V) (r : imres K V) :
+    fn_events mo r = [] \/ exists k n, fn_events mo r = repeat (EFn k) n.
+  Proof.
+    destruct mo; cbn; auto. destruct r as [|v ok [a|]| |]; auto. right. exists k, (a_fn a). reflexivity.
+  Qed.
+
+  Lemma mon_step_labels t o owe nfn (mo : cmop K V) (r : imres K V) (g : list (K * V)) mm :
+    mon_run t (Some {| m_op := Some o; m_owe := owe; m_nfn := nfn |}) (step_labels t (fn_events mo r) g) mm ->
+    mm = Some {| m_op := Some o; m_owe := (if is_remover o && has_cb CB then owe ++ g else owe);
+                 m_nfn := (nfn + length (fn_events mo r))%nat |}.
+  Proof.
+    unfold step_labels. intros Hr.
+    apply mon_run_app in Hr. destruct Hr as [m1 [H1 H2]].
+    apply mon_run_app in H2. destruct H2 as [m2 [H2 H3]].
+    assert (E1 : m1 = Some {| m_op := Some o; m_owe := owe; m_nfn := (nfn + length (fn_events mo r))%nat |}).
+    { destruct (fn_events_shape mo r) as [E|[k [n E]]]; rewrite E in *.
+      - cbn in H1. inversion H1; subst. cbn. rewrite Nat.add_0_r. reflexivity.
+      - rewrite (mon_fns _ _ _ _ _ _ _ H1). rewrite repeat_length. reflexivity. }
+    subst m1. rewrite (mon_gones _ _ _ _ _ _ H2) in H3.
+    apply mon_run_single in H3. cbn in H3. exact H3.
+  Qed.
+
+  (* one step: what it does to the instrumented history, to the invariant and to the monitors *)
+  Lemma step_inv s ist L gh t orc s1 ls1 :
+    Inv s ist L gh -> cstep s t orc = Some (s1, ls1) ->
+    exists ist1 L1 g1 marks,
+      Inv s1 ist1 L1 (upd gh t g1)
+      /\ erase _ _ marks = history ls1
+      /\ (forall i, wf_inst _ _ ist1 i -> wf_inst _ _ ist (marks ++ i))
+      /\ (forall i, legal _ _ _ tspec (mk L1) i -> legal _ _ _ tspec (mk L) (marks ++ i))
+      /\ labels_of t ls1
+      /\ (forall m', mon_run t (Some (mon_of (c_thr s t) (gh t))) ls1 m' -> m' = Some (mon_of (c_thr s1 t) g1)).
+  Proof.
+    intros HI Hstep.
+    pose proof (inv_thr _ _ _ _ HI t) as Ht. pose proof (inv_R _ _ _ _ HI) as HR.
+    unfold Conc.cstep in Hstep.
+    destruct (c_thr s t) as [|o p] eqn:Ethr.
+    - (* invocation *)
+      destruct (c_todo s t) as [|o rest_ops] eqn:Etodo; [discriminate|].
+      injection Hstep as <- <-. cbn in Ht.
+      assert (Hco : conc_ok o /\ Forall conc_ok rest_ops).
+      { pose proof (inv_todo _ _ _ _ HI t) as Hf. rewrite Etodo in Hf. inversion Hf; auto. }
+      destruct Hco as [Hco Hrest].
+      exists (upd ist t (TInvoked o)), L, ([], 0%nat), [IInv t o].
+      split; [|split; [reflexivity|split; [|split; [|split]]]].
+      + eapply Inv_set; [exact HI | exact HR | |].
+        * cbn. split; [exact Hco|]. left. split; [reflexivity|]. apply good_init. exact Hco.
+        * intros t'. unfold upd. destruct (Nat.eq_dec t' t); [exact Hrest | apply (inv_todo _ _ _ _ HI)].
+      + intros i Hw. cbn. apply wf_inv; assumption.
+      + intros i Hl. cbn. apply legal_inv; assumption.
+      + repeat constructor.
+      + intros m' Hr. apply mon_run_single in Hr. cbn in Hr. destruct (Nat.eq_dec t t); [|congruence].
+        subst m'. cbn [c_thr]. rewrite upd_same. reflexivity.
+    - (* a step of a running call *)
+      cbn in Ht. destruct Ht as [Hco Hg]. destruct (gh t) as [owe nfn] eqn:Egh. cbn [fst snd] in Hg.
+      destruct p as [r|mo k|k|k|d k|k|c k|e k].
+      + (* Ret *)
+        injection Hstep as <- <-.
+        assert (Hst : ist t = TLinearized o r /\ owe = [] /\ fn_ok o r nfn).
+        { destruct Hg as [[_ Hg]|[r' [Hst Hg]]]; cbn in Hg; destruct Hg as [Hl [Ho Hf]]; [discriminate | inversion Hl; subst; auto]. }
+        destruct Hst as [Hst [Ho Hf]].
+        exists (upd ist t TIdle), L, ([], 0%nat), [IRes t r].
+        split; [|split; [reflexivity|split; [|split; [|split]]]].
+        * unfold set_thr. eapply Inv_set; [exact HI | exact HR | cbn; reflexivity | apply (inv_todo _ _ _ _ HI)].
+        * intros i Hw. cbn. eapply wf_res; eassumption.
+        * intros i Hl. cbn. apply legal_res; assumption.
+        * repeat constructor.
+        * intros m' Hr. apply mon_run_single in Hr. cbn in Hr. destruct (Nat.eq_dec t t); [|congruence].
+          destruct Hr as [[_ [_ ->]]|[Hn _]]; [|exfalso; apply Hn; subst; auto].
+          cbn [c_thr set_thr]. rewrite upd_same. reflexivity.
+      + (* a map call *)
+        assert (Hcases :
+          exists m' k' g1, s1 = {| c_map := m'; c_thr := upd (c_thr s) t (Running o k'); c_todo := c_todo s |}
+            /\ history ls1 = [] /\ labels_of t ls1
+            /\ (forall mm, mon_run t (Some {| m_op := Some o; m_owe := owe; m_nfn := nfn |}) ls1 mm ->
+                  mm = Some {| m_op := Some o; m_owe := fst g1; m_nfn := snd g1 |})
+            /\ ((Rm m' L /\ ((ist t = TInvoked o /\ good o None (fst g1) (snd g1) k')
+                             \/ (exists r, ist t = TLinearized o r /\ good o (Some r) (fst g1) (snd g1) k')))
+                \/ (ist t = TInvoked o /\ exists res,
+                      spec_ok eqd zero (mk L) o res /\ Rm m' (st_map (spec_next eqd zero (mk L) o))
+                      /\ good o (Some res) (fst g1) (snd g1) k'))).
+        { destruct mo.
+          8:{ (* the snapshot *)
+              cbn [good] in Hg. injection Hstep as <- <-.
+              exists (c_map s), (k (RSnap orc)), (owe, nfn). unfold set_thr.
+              split; [reflexivity|]. split; [reflexivity|]. split; [repeat constructor|].
+              split. { intros mm Hr. apply mon_run_single in Hr. cbn in Hr. subst. reflexivity. }
+              cbn [fst snd].
+              destruct Hg as [[Hst Hg]|[r [Hst Hg]]]; specialize (Hg _ _ HR orc); cbn [call_ok] in Hg.
+              - destruct Hg as [[HR' Hg]|[res [Hok [HR' Hg]]]].
+                + left. split; [exact HR'|]. left. auto.
+                + right. split; [exact Hst|]. eauto.
+              - destruct Hg as [HR' Hg]. left. split; [exact HR'|]. right. exists r. auto. }
+          all: cbn [good] in Hg;
+               destruct Hg as [[Hst Hg]|[r [Hst Hg]]]; specialize (Hg _ _ HR);
+               revert Hstep Hg;
+               match goal with |- context [map_step eqd ?m ?op] => destruct (map_step eqd m op) as [m' r'] eqn:Ems end;
+               intros Hstep Hg; injection Hstep as <- <-;
+               match type of Ems with map_step _ _ (to_mop _ ?MO) = _ =>
+                 exists m', (k r'), (track eqd CB o (c_map s) m' owe, (nfn + length (fn_events MO r'))%nat) end;
+               (split; [reflexivity|]);
+               match type of Ems with map_step _ _ (to_mop _ ?MO) = _ =>
+                 (split; [exact (step_labels_history t (fn_events MO r') (gone eqd (c_map s) m'))|]);
+                 (split; [exact (step_labels_of t (fn_events MO r') (gone eqd (c_map s) m'))|]);
+                 (split; [intros mm Hmm; exact (mon_step_labels t o owe nfn MO r' (gone eqd (c_map s) m') mm Hmm)|])
+               end.
+          all: cbn [fst snd]; cbn [call_ok] in Hg.
+          all: first
+            [ (* not yet linearized *)
+              destruct Hg as [[HR' Hg]|[res [Hok [HR' Hg]]]];
+              [ left; split; [exact HR'|]; left; split; [exact Hst | exact Hg]
+              | right; split; [exact Hst|]; exists res; auto ]
+            | (* already linearized *)
+              destruct Hg as [HR' Hg]; left; split; [exact HR'|]; right; exists r; split; [exact Hst | exact Hg] ]. }
+        destruct Hcases as [m' [k' [g1 [-> [Hh [Hlab [Hmon Hc]]]]]]].
+        destruct Hc as [[HR' Hc]|[Hst [res [Hok [HR' Hg']]]]].
+        * (* no linearization point at this step *)
+          exists ist, L, g1, []. split; [|split; [symmetry; exact Hh|split; [auto|split; [auto|split; [exact Hlab|]]]]].
+          -- assert (E : ist = upd ist t (ist t) \/ True) by (right; exact I). clear E.
+             constructor; cbn.
+             ++ exact HR'.
+             ++ intros t'. unfold upd. destruct (Nat.eq_dec t' t) as [->|]; [|apply (inv_thr _ _ _ _ HI)].
+                cbn. split; [exact Hco|]. destruct Hc as [[Hst Hg']|[r [Hst Hg']]]; [left|right]; eauto.
+             ++ apply (inv_todo _ _ _ _ HI).
+          -- intros mm Hr. cbn [mon_of] in Hr. rewrite (Hmon _ Hr). cbn [c_thr]. rewrite upd_same. reflexivity.
+        * (* the linearization point *)
+          exists (upd ist t (TLinearized o res)), (st_map (spec_next eqd zero (mk L) o)), g1, [ILin t o res].
+          split; [|split; [cbn; symmetry; exact Hh|split; [|split; [|split; [exact Hlab|]]]]].
+          -- eapply Inv_set; [exact HI | exact HR' | | apply (inv_todo _ _ _ _ HI)].
+             cbn. split; [exact Hco|]. right. exists res. auto.
+          -- intros i Hw. cbn. apply wf_lin; assumption.
+          -- intros i Hl. cbn. eapply legal_lin; [|exact Hl]. split; [exact Hok|]. symmetry. apply spec_next_mk. exact Hco.
+          -- intros mm Hr. cbn [mon_of] in Hr. rewrite (Hmon _ Hr). cbn [c_thr]. rewrite upd_same. reflexivity.
+      + (* ReadNow *)
+        injection Hstep as <- <-. exists ist, L, (owe, nfn), [].
+        split; [|split; [reflexivity|split; [auto|split; [auto|split; [repeat constructor|]]]]].
+        * unfold set_thr. constructor; cbn; [exact HR | | apply (inv_todo _ _ _ _ HI)].
+          intros t'. unfold upd. destruct (Nat.eq_dec t' t) as [->|]; [|apply (inv_thr _ _ _ _ HI)].
+          cbn. split; [exact Hco|]. exact Hg.
+        * intros mm Hr. apply mon_run_single in Hr. cbn in Hr. subst mm. cbn [c_thr set_thr]. rewrite upd_same. reflexivity.
+      + (* ReadDflt *)
+        injection Hstep as <- <-. exists ist, L, (owe, nfn), [].
+        split; [|split; [reflexivity|split; [auto|split; [auto|split; [repeat constructor|]]]]].
+        * unfold set_thr. constructor; cbn; [exact HR | | apply (inv_todo _ _ _ _ HI)].
+          intros t'. unfold upd. destruct (Nat.eq_dec t' t) as [->|]; [|apply (inv_thr _ _ _ _ HI)].
+          cbn. split; [exact Hco|]. exact Hg.
+        * intros mm Hr. apply mon_run_single in Hr. cbn in Hr. subst mm. cbn [c_thr set_thr]. rewrite upd_same. reflexivity.
+      + discriminate.
+      + (* ReadCb *)
+        injection Hstep as <- <-. exists ist, L, (owe, nfn), [].
+        split; [|split; [reflexivity|split; [auto|split; [auto|split; [repeat constructor|]]]]].
+        * unfold set_thr. constructor; cbn; [exact HR | | apply (inv_todo _ _ _ _ HI)].
+          intros t'. unfold upd. destruct (Nat.eq_dec t' t) as [->|]; [|apply (inv_thr _ _ _ _ HI)].
+          cbn. split; [exact Hco|]. exact Hg.
+        * intros mm Hr. apply mon_run_single in Hr. cbn in Hr. subst mm. cbn [c_thr set_thr]. rewrite upd_same. reflexivity.
+      + discriminate.
+      + (* Emit *)
+        injection Hstep as <- <-.
+        destruct e as [c k0 v|k0|k0 v].
+        * (* a callback: the thread owes it *)
+          assert (Hx : exists owe', CB = Some c /\ owe = (k0, v) :: owe'
+                       /\ ((ist t = TInvoked o /\ good o None owe' nfn k)
+                           \/ (exists r, ist t = TLinearized o r /\ good o (Some r) owe' nfn k))).
+          { destruct Hg as [[Hst Hg]|[r [Hst Hg]]]; cbn [good] in Hg; destruct Hg as [owe' [Hcb [Ho Hg]]]; exists owe'; eauto 8. }
+          destruct Hx as [owe' [Hcb [Ho Hg']]].
+          exists ist, L, (owe', nfn), [].
+          split; [|split; [reflexivity|split; [auto|split; [auto|split; [repeat constructor|]]]]].
+          -- unfold set_thr. constructor; cbn; [exact HR | | apply (inv_todo _ _ _ _ HI)].
+             intros t'. unfold upd. destruct (Nat.eq_dec t' t) as [->|]; [|apply (inv_thr _ _ _ _ HI)].
+             cbn. split; [exact Hco|]. exact Hg'.
+          -- intros mm Hr. apply mon_run_single in Hr. cbn in Hr. destruct (Nat.eq_dec t t); [|congruence].
+             destruct Hr as [[rest [_ [Hr1 ->]]]|[Hn _]].
+             ++ cbn [m_owe] in Hr1. rewrite Ho in Hr1. inversion Hr1; subst. cbn [c_thr set_thr]. rewrite upd_same. reflexivity.
+             ++ exfalso. apply (Hn owe'). cbn. auto.
+        * (* the user function is reported by the map call itself; no method body emits it *)
+          exfalso. destruct Hg as [[Hst Hg]|[r [Hst Hg]]]; cbn [good] in Hg; exact Hg.
+        * (* a visit *)
+          exists ist, L, (owe, nfn), [].
+          split; [|split; [reflexivity|split; [auto|split; [auto|split; [repeat constructor|]]]]].
+          -- unfold set_thr. constructor; cbn; [exact HR | | apply (inv_todo _ _ _ _ HI)].
+             intros t'. unfold upd. destruct (Nat.eq_dec t' t) as [->|]; [|apply (inv_thr _ _ _ _ HI)].
+             cbn. split; [exact Hco|]. exact Hg.
+          -- intros mm Hr. apply mon_run_single in Hr. cbn in Hr. subst mm. cbn [c_thr set_thr]. rewrite upd_same. reflexivity.
+  Qed.
+
+  Lemma cstep_other s t orc s1 ls1 t' : cstep s t orc = Some (s1, ls1) -> t' <> t -> c_thr s1 t' = c_thr s t'.
+  Proof.
+    unfold Conc.cstep. intros H Hne.
+    destruct (c_thr s t) as [|o p].
+    - destruct (c_todo s t); [discriminate|]. injection H as <- <-. cbn. apply upd_other. exact Hne.
+    - destruct p as [r|mo k|k|k|d k|k|c k|e k]; try discriminate.
+      + injection H as <- <-. cbn. apply upd_other. exact Hne.
+      + destruct mo.
+        8:{ injection H as <- <-. cbn. apply upd_other. exact Hne. }
+        all: destruct (map_step eqd (c_map s) _) as [m' r']; injection H as <- <-; cbn; apply upd_other; exact Hne.
+      + injection H as <- <-. cbn. apply upd_other. exact Hne.
+      + injection H as <- <-. cbn. apply upd_other. exact Hne.
+      + injection H as <- <-. cbn. apply upd_other. exact Hne.
+      + injection H as <- <-. cbn. apply upd_other. exact Hne.
+  Qed.
+
+  Theorem runs_linearizable sched : forall s ist L gh,
+    Inv s ist L gh ->
     let '(s', ls) := crun s sched in
     exists i, erase _ _ i = history ls /\ wf_inst _ _ ist i /\ legal _ _ _ tspec (mk L) i.
   Proof.
-    induction sched as [|[t orc] rest IH]; intros s ist L HI; cbn [Conc.crun].
+    induction sched as [|[t orc] rest IH]; intros s ist L gh HI; cbn [Conc.crun].
     - exists []. cbn. repeat split; constructor.
-    - destruct (cstep s t orc) as [[s1 ls1]|] eqn:Hstep; [|apply IH; exact HI].
-      pose proof (inv_thr _ _ _ HI t) as Ht. pose proof (inv_R _ _ _ HI) as HR.
-      unfold Conc.cstep in Hstep.
-      destruct (c_thr s t) as [|o p] eqn:Ethr.
-      + (* invocation *)
-        destruct (c_todo s t) as [|o rest_ops] eqn:Etodo; [discriminate|].
-        inversion Hstep; subst s1 ls1; clear Hstep. cbn in Ht.
-        assert (Hco : conc_ok o /\ Forall conc_ok rest_ops).
-        { pose proof (inv_todo _ _ _ HI t) as Hf. rewrite Etodo in Hf. inversion Hf; auto. }
-        destruct Hco as [Hco Hrest].
-        assert (HI1 : Inv {| c_map := c_map s; c_thr := upd (c_thr s) t (Running o (progs o));
-                             c_todo := upd (c_todo s) t rest_ops |} (upd ist t (TInvoked o)) L).
-        { eapply Inv_set; [exact HI | exact HR | |].
-          - cbn. split; [exact Hco|]. exists [], 0%nat. left. split; [reflexivity|]. apply good_init. exact Hco.
-          - intros t'. unfold upd. destruct (Nat.eq_dec t' t); [exact Hrest | apply (inv_todo _ _ _ HI)]. }
-        specialize (IH _ _ _ HI1). destruct (crun _ rest) as [s2 ls2]. destruct IH as [i [He [Hw Hl]]].
-        exists (IInv t o :: i). cbn. rewrite He. repeat split; [apply wf_inv; assumption | apply legal_inv; assumption].
-      + (* a step of a running call *)
-        cbn in Ht. destruct Ht as [Hco [owe [nfn Hg]]].
-        destruct p as [r|mo k|k|k|d k|k|c k|e k].
-        * (* Ret: the response *)
-          inversion Hstep; subst s1 ls1; clear Hstep.
-          assert (Hst : ist t = TLinearized o r).
-          { destruct Hg as [[_ Hg]|[r' [Hst Hg]]]; cbn in Hg; destruct Hg as [Hl _]; [discriminate | inversion Hl; subst; exact Hst]. }
-          assert (HI1 : Inv (set_thr s t Idle) (upd ist t TIdle) L).
-          { unfold set_thr. eapply Inv_set; [exact HI | exact HR | cbn; reflexivity | apply (inv_todo _ _ _ HI)]. }
-          specialize (IH _ _ _ HI1). destruct (crun _ rest) as [s2 ls2]. destruct IH as [i [He [Hw Hl]]].
-          exists (IRes t r :: i). cbn. rewrite He. repeat split; [eapply wf_res; eassumption | apply legal_res; assumption].
-        * (* a map call *)
-          assert (Hcases :
-            exists m' k' ls', s1 = {| c_map := m'; c_thr := upd (c_thr s) t (Running o k'); c_todo := c_todo s |}
-              /\ ls1 = ls' /\ history ls' = []
-              /\ ((Rm m' L /\ ((ist t = TInvoked o /\ exists owe' nfn', good o None owe' nfn' k')
-                               \/ (exists r, ist t = TLinearized o r /\ exists owe' nfn', good o (Some r) owe' nfn' k')))
-                  \/ (ist t = TInvoked o /\ exists res owe' nfn',
-                        spec_ok eqd zero (mk L) o res /\ Rm m' (st_map (spec_next eqd zero (mk L) o))
-                        /\ good o (Some res) owe' nfn' k'))).
-          { assert (Hhist : forall (evs : list (event K V)) (g : list (K * V)),
-                      history (map (LEv t) evs ++ map (fun kv => LGone t (fst kv) (snd kv)) g ++ [LTau t]) = []).
-            { intros evs g. induction evs; cbn; auto. induction g; cbn; auto. }
-            destruct mo.
-            all: try (cbn [good] in Hg;
-                      destruct Hg as [[Hst Hg]|[r [Hst Hg]]]; specialize (Hg _ _ HR);
-                      revert Hstep Hg;
-                      match goal with |- context [map_step eqd ?m ?op] => destruct (map_step eqd m op) as [m' r'] end;
-                      intros Hstep Hg; injection Hstep as <- <-;
-                      exists m', (k r'); eexists; (split; [reflexivity|]); (split; [reflexivity|]); (split; [first [apply Hhist | exact (Hhist [] _)]|]);
-                      cbn [call_ok] in Hg;
-                      [ destruct Hg as [[HR' Hg]|[res [Hok [HR' Hg]]]];
-                        [ left; split; [exact HR'|]; left; split; [exact Hst|]; eauto
-                        | right; split; [exact Hst|]; eauto 8 ]
-                      | destruct Hg as [HR' Hg]; left; split; [exact HR'|]; right; exists r; split; [exact Hst|]; eauto ]).
-            (* the snapshot *)
-            cbn [good] in Hg. injection Hstep as <- <-.
-            exists (c_map s), (k (RSnap orc)), [LTau t]. unfold set_thr. split; [reflexivity|]. split; [reflexivity|]. split; [reflexivity|].
-            destruct Hg as [[Hst Hg]|[r [Hst Hg]]]; specialize (Hg _ _ HR orc); cbn [call_ok] in Hg.
-            - destruct Hg as [[HR' Hg]|[res [Hok [HR' Hg]]]].
-              + left. split; [exact HR'|]. left. split; [exact Hst|]. eauto.
-              + right. split; [exact Hst|]. eauto 8.
-            - destruct Hg as [HR' Hg]. left. split; [exact HR'|]. right. exists r. split; [exact Hst|]. eauto. }
-          destruct Hcases as [m' [k' [ls' [-> [-> [Hh Hc]]]]]].
-          destruct Hc as [[HR' Hc]|[Hst [res [owe' [nfn' [Hok [HR' Hg']]]]]]].
-          -- (* no linearization point at this step *)
-             assert (HI1 : Inv {| c_map := m'; c_thr := upd (c_thr s) t (Running o k'); c_todo := c_todo s |} ist L).
-             { eapply Inv_set_same; [exact HI | exact HR' |].
-               cbn. split; [exact Hco|].
-               destruct Hc as [[Hst [owe' [nfn' Hg']]]|[r [Hst [owe' [nfn' Hg']]]]]; exists owe', nfn'; [left|right]; eauto. }
-             specialize (IH _ _ _ HI1). destruct (crun _ rest) as [s2 ls2]. destruct IH as [i [He [Hw Hl]]].
-             exists i. rewrite history_app, Hh. cbn. auto.
-          -- (* the linearization point *)
-             assert (HI1 : Inv {| c_map := m'; c_thr := upd (c_thr s) t (Running o k'); c_todo := c_todo s |}
-                               (upd ist t (TLinearized o res)) (st_map (spec_next eqd zero (mk L) o))).
-             { eapply Inv_set; [exact HI | exact HR' | | apply (inv_todo _ _ _ HI)].
-               cbn. split; [exact Hco|]. exists owe', nfn'. right. exists res. auto. }
-             specialize (IH _ _ _ HI1). destruct (crun _ rest) as [s2 ls2]. destruct IH as [i [He [Hw Hl]]].
-             exists (ILin t o res :: i). rewrite history_app, Hh. cbn. split; [exact He|]. split.
-             ++ apply wf_lin; assumption.
-             ++ eapply legal_lin; [|exact Hl]. split; [exact Hok|]. symmetry. apply spec_next_mk. exact Hco.
-        * (* ReadNow *)
-          inversion Hstep; subst s1 ls1; clear Hstep.
-          pose proof (silent_step rest IH s ist L t o (k NOW) [LTau t] HI eq_refl) as Hs.
-          assert (Ht' : thr_ok (Running o (k NOW)) (ist t)).
-          { cbn. split; [exact Hco|]. exists owe, nfn. exact Hg. }
-          specialize (Hs Ht'). destruct (crun _ rest) as [s2 ls2]. exact Hs.
-        * (* ReadDflt *)
-          inversion Hstep; subst s1 ls1; clear Hstep.
-          pose proof (silent_step rest IH s ist L t o (k DFLT) [LTau t] HI eq_refl) as Hs.
-          assert (Ht' : thr_ok (Running o (k DFLT)) (ist t)).
-          { cbn. split; [exact Hco|]. exists owe, nfn. exact Hg. }
-          specialize (Hs Ht'). destruct (crun _ rest) as [s2 ls2]. exact Hs.
-        * (* WriteDflt: not a step *) discriminate.
-        * (* ReadCb *)
-          inversion Hstep; subst s1 ls1; clear Hstep.
-          pose proof (silent_step rest IH s ist L t o (k CB) [LTau t] HI eq_refl) as Hs.
-          assert (Ht' : thr_ok (Running o (k CB)) (ist t)).
-          { cbn. split; [exact Hco|]. exists owe, nfn. exact Hg. }
-          specialize (Hs Ht'). destruct (crun _ rest) as [s2 ls2]. exact Hs.
-        * (* WriteCb: not a step *) discriminate.
-        * (* Emit *)
-          inversion Hstep; subst s1 ls1; clear Hstep.
-          pose proof (silent_step rest IH s ist L t o k [LEv t e] HI eq_refl) as Hs.
-          assert (Ht' : thr_ok (Running o k) (ist t)).
-          { cbn. split; [exact Hco|].
-            destruct e as [c k0 v|k0|k0 v].
-            - destruct Hg as [[Hst Hg]|[r [Hst Hg]]]; cbn [good] in Hg; destruct Hg as [owe' [_ [_ Hg]]]; exists owe', nfn; eauto.
-            - exists owe, nfn. exact Hg.
-            - exists owe, nfn. exact Hg. }
-          specialize (Hs Ht'). destruct (crun _ rest) as [s2 ls2]. exact Hs.
+    - destruct (cstep s t orc) as [[s1 ls1]|] eqn:Hstep; [|apply (IH _ _ _ _ HI)].
+      destruct (step_inv _ _ _ _ _ _ _ _ HI Hstep) as [ist1 [L1 [g1 [marks [HI1 [He [Hw [Hl _]]]]]]]].
+      specialize (IH _ _ _ _ HI1). destruct (crun s1 rest) as [s2 ls2]. destruct IH as [i [He2 [Hw2 Hl2]]].
+      exists (marks ++ i). split; [|split; [apply Hw; exact Hw2 | apply Hl; exact Hl2]].
+      rewrite history_app, <- He, <- He2. clear. induction marks as [|[] m IH]; cbn; auto; f_equal; auto.
   Qed.
 
-
+  Theorem runs_monitored sched : forall s ist L gh,
+    Inv s ist L gh ->
+    forall t', mon_accepts t' (mon_of (c_thr s t') (gh t')) (snd (crun s sched)).
+  Proof.
+    induction sched as [|[t orc] rest IH]; intros s ist L gh HI t'; cbn [Conc.crun].
+    - cbn. intros m' Hr. inversion Hr; subst. discriminate.
+    - destruct (cstep s t orc) as [[s1 ls1]|] eqn:Hstep; [|apply (IH _ _ _ _ HI)].
+      destruct (step_inv _ _ _ _ _ _ _ _ HI Hstep) as [ist1 [L1 [g1 [marks [HI1 [_ [_ [_ [Hlab Hmon]]]]]]]]].
+      specialize (IH _ _ _ _ HI1 t'). destruct (crun s1 rest) as [s2 ls2]. cbn [snd] in *.
+      intros m' Hr. apply mon_run_app in Hr. destruct Hr as [mx [H1 H2]].
+      destruct (Nat.eq_dec t' t) as [->|Hne].
+      + rewrite (Hmon _ H1) in H2. rewrite upd_same in IH. exact (IH _ H2).
+      + rewrite (mon_other _ _ _ _ _ Hne Hlab H1) in H2.
+        rewrite upd_other in IH by exact Hne. rewrite (cstep_other _ _ _ _ _ _ Hstep Hne) in IH. exact (IH _ H2).
+  Qed.
 
   (* from any state reached sequentially (physical map P0 related to the
      specification state L0, e.g. by C01), with every thread idle *)
+  Lemma Inv_init (P0 L0 : amap K item) (todo : nat -> list cop) :
+    Rm P0 L0 -> (forall t, Forall conc_ok (todo t)) ->
+    Inv (cinit P0 todo) (fun _ => TIdle) L0 (fun _ => ([], 0%nat)).
+  Proof. intros HR Htodo. constructor; cbn; auto. Qed.
+
   Theorem cache_linearizable (P0 L0 : amap K item) (todo : nat -> list cop) sched :
     Rm P0 L0 -> (forall t, Forall conc_ok (todo t)) ->
     linearizable _ _ _ tspec (mk L0) (history (snd (crun (cinit P0 todo) sched))).
   Proof.
     intros HR Htodo.
-    assert (HI : Inv (cinit P0 todo) (fun _ => TIdle) L0).
-    { constructor; cbn; auto. }
-    pose proof (runs_linearizable sched _ _ _ HI) as H.
+    pose proof (runs_linearizable sched _ _ _ _ (Inv_init P0 L0 todo HR Htodo)) as H.
     destruct (crun (cinit P0 todo) sched) as [s' ls]. cbn. exact H.
+  Qed.
+
+  (* C06 / C05 along every run: no thread's trace ever violates the monitor *)
+  Theorem cache_monitored (P0 L0 : amap K item) (todo : nat -> list cop) sched t :
+    Rm P0 L0 -> (forall t, Forall conc_ok (todo t)) ->
+    mon_accepts t mon_idle (snd (crun (cinit P0 todo) sched)).
+  Proof.
+    intros HR Htodo.
+    exact (runs_monitored sched _ _ _ _ (Inv_init P0 L0 todo HR Htodo) t).
   Qed.
 
 End LinProof.
